@@ -528,6 +528,14 @@ func (c *caseRun) usable(op, pair, oldType string, sl *slot, det func() map[stri
 	case tTM:
 		e.w.Advance(timeDur(in.tmDelay))
 		e.w.Roll(n)
+		if in.tmDelay > 0 && updErr == "" && c.rng.Intn(2) == 0 {
+			// the client moves on right before the proof is presented: the delay of the INSTALLED height has passed,
+			// that of the new latest height has only just begun
+			if ok, _, built := c.update(sl); built && ok {
+				done++
+				r.Count("tendermint_update_between_delay_and_proof", 1)
+			}
+		}
 		proofTried = true
 	case tBSC, tETH:
 		proofTried = in.headHeight()-in.installed.RevisionHeight >= in.delayBlocks()
